@@ -19,6 +19,10 @@ cdata.set('SIZEOF_INT', cc.sizeof('int'))
 add_project_arguments(supp, language: 'c')
 configure_file(output: 'config.h', configuration: cdata)
 configure_file(input: 'tmpl.in', output: 'tmpl.out', configuration: cdata)
+# templates whose lines end in CR LF / in a lone CR (the output keeps them)
+configure_file(input: 'crlf.h.in', output: 'crlf.h', configuration: cdata)
+configure_file(input: 'cr.txt.in', output: 'cr.txt', configuration: cdata)
+configure_file(input: 'crlf.cm.in', output: 'crlf_cm.h', configuration: cdata, format: 'cmake@')
 add_project_arguments('-DPROJ_B', '-DPROJ_A', language: 'c')
 add_project_link_arguments('-Wl,--as-needed', language: 'c')
 inc = include_directories('inc', 'inc2')
@@ -80,6 +84,9 @@ option('zz_last', type: 'string', value: '')
 option('aa_first', type: 'string', value: '')
 ''',
     'tmpl.in': 'a=@ALPHA@ z=@ZETA@ #mesondefine MID\n',
+    'crlf.h.in': '/* crlf */\r\n#define A "@ALPHA@"\r\n#mesondefine MID\r\n#mesondefine BETA\r\nlast @ZETA@\r\n',
+    'cr.txt.in': 'one @ALPHA@\rtwo @ZETA@\rthree\r',
+    'crlf.cm.in': '#cmakedefine MID\r\n#cmakedefine01 BETA\r\nv=@GAMMA@\r\n',
     'g.h.in': '#define G 1\n', 'g.c.in': 'int g1(void) { return 1; }\n',
     'z.c': 'int zf(void) { return 1; }\n', 'm.c': '#include "g.h"\nint zf(void); int mf(void) { return zf() + G; }\n',
     'b.c': 'int mf(void); int bf(void) { return mf(); }\n',
